@@ -79,6 +79,9 @@ def item_shapes():
               "struct S<'a, T: ?Sized>(&'a (dyn core::fmt::Debug + 'a), Box<dyn core::any::Any + 'static>, Box<dyn 'static + Send>, &'a T);",
               "enum E<T> { A(T, Box<dyn core::any::Any + Send + 'static>), B { x: &'static (dyn core::fmt::Debug + Sync), y: fn(T) -> T }, C(dyn_ty::X<T>, <u8 as Tr>::A, [T; 2], (T, u8), !) }",
               "struct S<T> { a: Option<&'static T>, b: ::core::marker::PhantomData<T>, c: impl_ty::Y, d: Box<dyn Iterator<Item = T> + 'static>, e: (T), f: &'static [T] }",
+              # unsized last fields: trait objects with several bounds need parentheses once a `&` is put in front of them
+              "struct S(dyn Tr + Send);", "struct S { a: u8, b: dyn core::fmt::Debug + Send + 'static }", "struct S<'a, T: ?Sized>(&'a u8, T);", "struct S(u8, [u8]);", "struct S(str);",
+              "struct S<'a>(&'a u8, dyn Tr + 'a);", "enum E<'a> { A(&'a (dyn Tr + Send)), B(&'a mut (dyn Tr + 'a)) }",
               "pub(crate) struct S(pub u8, pub(crate) u16);", "#[doc = \"x\"] #[allow(dead_code)] #[cfg_attr(all(), derive(Clone))] struct S(#[doc = \"y\"] u8);"]
     return shapes
 
@@ -95,6 +98,8 @@ def part_a(chk, derives):
                 reqs.append({"derive": d["name"], "item": "#[%s(\"{}\")] %s" % (a, s)})
     # the same items as a `macro_rules!` expansion hands them over: every field type inside a None-delimited group
     reqs += [dict(q, group=True) for q in reqs if "(" in q["item"] or "{" in q["item"]]
+    # (not for the grouped variants: printing tokens as text drops None-delimited groups, which rustc itself keeps together)
+    reqs = [q if q.get("group") else dict(q, parse=True) for q in reqs]
     res = svc(reqs, timeout=120)
     evaluate(chk, "a_items", reqs, res)
     chk.part("a_items", inputs=len(reqs), derives=len(derives), shapes=len(item_shapes()), note="every input also with its field types wrapped in None-delimited groups (syn::Type::Group)")
@@ -121,6 +126,11 @@ def evaluate(chk, label, reqs, res, watchdog=WATCHDOG_US):
             raise MachineryError("bad request: %s" % r)
         elif r.get("us", 0) > watchdog:
             chk.violation("%s: call exceeded watchdog" % label, w, "us=%d" % r["us"])
+        elif k == "ok" and q.get("parse") and r.get("parses") is False:
+            # the item is valid Rust (these generators write nothing else), so tokens that are not Rust items are the derive's doing;
+            # rustc reports them as "proc-macro derive produced unparsable tokens" - an internal failure as far as the user can tell
+            chk.outcome("%s/ok-but-not-rust" % label)
+            chk.violation("internal failure: the expansion is not parsable as Rust items (derive(%s))" % q["derive"], w, r.get("out", "")[:700])
         elif k == "parsefail" and len(q["item"]) < 300:
             raise MachineryError("generated item does not parse: %s (%s)" % (q["item"], r["msg"]))
 
@@ -240,6 +250,7 @@ def part_f(chk, thorough):
         if k not in seen:
             seen.add(k)
             uniq.append(q)
+    uniq = [dict(q, parse=True) for q in uniq]
     res = svc(uniq, timeout=300)
     # these generators write valid Rust by construction; an item that does not parse is their bug, reported as such
     evaluate(chk, "f_cross_property_corpus", uniq, res)
